@@ -101,9 +101,13 @@ def _case(draw, tier):
             steps.append({"op": "restore", "kill": draw(st.sampled_from([None, None, None] + list(range(0, 1000, 111)))),
                           "deep": True, "order": s["order"], "retry": True})
     runs = [j for j, s in enumerate(steps) if s["op"] == "run"]
-    if g["git"] == "git" and runs and draw(st.sampled_from(range(4))) == 0:
-        # a touched-but-unchanged tracked file right before a run
-        steps.insert(draw(st.sampled_from(runs)), {"op": "git", "action": draw(st.sampled_from(["touch", "dirty_staged"])), "kill": None})
+    if g["git"] == "git" and runs and draw(st.sampled_from(range(2))) == 0:
+        # a touched-but-unchanged tracked file, or a change that is completely staged, right before a run that records
+        j = draw(st.sampled_from(runs))
+        if draw(st.booleans()):
+            steps[j]["outcomes"] = {}
+            steps[j]["kill"] = None
+        steps.insert(j, {"op": "git", "action": draw(st.sampled_from(["touch", "dirty_staged", "dirty_staged"])), "kill": None})
     g["steps"] = steps
     return g
 
